@@ -9,10 +9,9 @@
  *           z<hex>[!k]        json_object_set_string(o, bytes ++ NUL)
  *           o<off>,<len>[!k]  json_object_set_string_len(o, json_object_get_string(o) + off, len)
  *           s<off>[!k]        json_object_set_string(o, json_object_get_string(o) + off)
- *                             (the source is the node's own current buffer; refused with BADOP
- *                             unless it lies inside the contents and is their start or disjoint
- *                             from the destination; O / S: the same without the overlap test,
- *                             for hand-written witnesses only)
+ *                             (the source is the node's own current buffer; any range inside the
+ *                             contents and their terminator, overlapping the destination or
+ *                             not; anything else is refused with BADOP; O / S are synonyms)
  *           g                 observe only
  *   !k      the k-th allocation request counted from the start of this call fails
  * observation per step:
@@ -174,8 +173,8 @@ void run_case(char *rest)
 		printf(" | ");
 		if (tok[0] == 'g') { observe(o, "g", 0, flags); continue; }
 		if (tok[0] == 'o' || tok[0] == 's' || tok[0] == 'O' || tok[0] == 'S') {
-			int strict = (tok[0] == 'o' || tok[0] == 's'), bylen = (tok[0] == 'o' || tok[0] == 'O');
-			/* own-buffer source: the expected bytes are a slice of the current ones */
+			int bylen = (tok[0] == 'o' || tok[0] == 'O');
+			/* own-buffer source: the expected bytes are a slice of the current ones and their NUL */
 			char *bang = strchr(tok, '!');
 			long long off = 0, ln = 0;
 			size_t cnt;
@@ -192,10 +191,14 @@ void run_case(char *rest)
 				z = (const unsigned char *)memchr(exp_b + off, 0, exp_n - (size_t)off);
 				cnt = z ? (size_t)(z - (exp_b + off)) : exp_n - (size_t)off;
 			}
-			/* only sources inside the contents, exactly equal to or disjoint from the destination */
-			if (off < 0 || (size_t)off + cnt > exp_n || (strict && off != 0 && cnt > (size_t)off)) { printf("BADOP"); break; }
+			/* only sources inside the contents and their terminator */
+			if (off < 0 || ln < 0 || (size_t)off > exp_n || (size_t)off + cnt > exp_n + 1) { printf("BADOP"); break; }
 			b = (unsigned char *)(malloc)(cnt ? cnt : 1);
-			memcpy(b, exp_b + off, cnt);
+			if ((size_t)off + cnt > exp_n) {	/* the slice ends with the terminator */
+				memcpy(b, exp_b + off, cnt - 1);
+				b[cnt - 1] = 0;
+			} else
+				memcpy(b, exp_b + off, cnt);
 			own = json_object_get_string(o) + off;
 			before = xa_live;
 			if (fault >= 0) xa_fail_at = xa_count + fault;
